@@ -302,3 +302,32 @@ func init() {
 		},
 	})
 }
+
+func init() {
+	register(&Property{
+		ID: "C07",
+		Explanation: "Decides structural necessary conditions of 'LALR(k) resolution never changes the language': CODEC(deep-pointer): lookahead pointers are encoded as -3-offset by every writer (trie emitter, populateTables, the Lalr patch) and decoded as -action-3 by every reader (Optimize, minimize's partitioning, each generated lalr()), and generated parse loops treat action < -2 as a pointer. MUSTPASS(trie-id): a minimized trie node receives its id before it is published in the shared cache. " +
+			"DTX(resolved-flag): a conflict is marked resolved only if no lookahead terminal failed (the flag only moves from true to false inside the terminal loop); UsedLADepth is raised with every patched pointer. GUARD(optimize-la): tables with pointers are not handed to Optimize. ORDER: the trie's map iterations are sorted (C18). " +
+			"Not decided: soundness of the trie (which rule a lookahead string selects).",
+		Rules: []string{"CODEC(deep-pointer)", "MUSTPASS(trie-id)", "DTX(resolved-flag)", "GUARD(optimize-la)"},
+		Run: func(c *Ctx) {
+			ruleLALRK(c)
+			ruleCOMPILEORDER(c)
+		},
+	})
+}
+
+func init() {
+	register(&Property{
+		ID: "C08",
+		Explanation: "Decides structural necessary conditions of 'runtime lookahead decisions pick the alternative whose predicates hold': TMPL(negation): in go_parser.go.tmpl every emitted copy of a decision list applies {{if .Predicate.Negated}}!{{end}} in both the cancellable and the plain variant (template tree analysis, so un-instantiated branches are covered). SIBLING(decision-list): in the committed js and test parsers the applyRule and lookaheadRule copies of each lookahead rule have the same tests, polarities and targets. " +
+			"SHIFTWIDTH: the memoization key widens before shifting (distinct predicates at one offset never share a cached answer). ERRFLOW: a lookahead's error is never dropped (C29). Not decided: the planner (newLookaheadRule/pickLookahead), an ordering algorithm over runtime data pinned by lalr.TestLookahead.",
+		Rules: []string{"TMPL(negation)", "SIBLING(decision-list)", "SHIFTWIDTH", "ERRFLOW"},
+		Run: func(c *Ctx) {
+			ruleTMPLNEG(c)
+			ruleDECISIONSIBLING(c)
+			ruleSHIFTWIDTH(c)
+			ruleERRFLOW(c)
+		},
+	})
+}
